@@ -11,6 +11,10 @@
 // from the same sub-seed: first scribbled; only if that pass found nothing the same arguments
 // are emitted again and the buffers are FREED (ASan), so a value-level ownership finding can
 // never turn into a crash that masks something else.
+// Attribute arguments include owning containers handed over DIRECTLY (std::map / unordered_map /
+// vector<pair> with std::string keys and std::string or arithmetic mapped values, KDirBase): the
+// API walks the caller's container itself; a simple processor's exporter must see exactly what it
+// held, classes <processor>:container-direct:<container type>.
 // Engine E2 (tsan + shim, --param mode=mt): 1..4 threads with their own scope stacks emit into
 // shared processors; records are matched by an id attribute; correlation must be with the
 // emitting thread's active span at record creation.
@@ -61,6 +65,10 @@
 #ifdef OTEL_VERIF_SHIM
 #  include "vf_runtime.h"
 #endif
+#if defined(__SANITIZE_ADDRESS__)
+#  include <sanitizer/asan_interface.h>
+#  define VF_HAVE_ASAN 1
+#endif
 
 namespace nostd     = opentelemetry::nostd;
 namespace common    = opentelemetry::common;
@@ -106,9 +114,17 @@ struct CV
 {
   int cls = -1;
   std::string bytes;
-  bool operator==(const CV &o) const { return cls == o.cls && bytes == o.bytes; }
+  bool dead = false;  // a string view whose storage was already dead (ASan-poisoned) when it was looked at
+  bool operator==(const CV &o) const { return !dead && !o.dead && cls == o.cls && bytes == o.bytes; }
   bool operator!=(const CV &o) const { return !(*this == o); }
 };
+
+// Set while an emit whose arguments include a DIRECTLY passed owning container (KDirect below) is
+// in flight and being verified (sequential engine, ASan build only): the capture visitor then asks
+// ASan whether the storage behind an exported string view is still alive BEFORE reading it, so a
+// view of a dead temporary becomes a value-level violation with a precise class instead of a
+// sanitizer abort.  Never set for any other shape: their behaviour is unchanged.
+static bool g_probe_dead_views = false;
 
 static void put_u64(std::string &s, uint64_t v)
 {
@@ -155,6 +171,14 @@ struct CaptureVisitor
   {
     CV c;
     c.cls = A_SV;
+#ifdef VF_HAVE_ASAN
+    if (g_probe_dead_views && v.size() && __asan_region_is_poisoned(const_cast<char *>(v.data()), v.size()))
+    {
+      c.dead  = true;
+      c.bytes = std::string("\0<dead storage>", 15) + std::to_string(v.size());
+      return c;
+    }
+#endif
     c.bytes.assign(v.data(), v.size());
     return c;
   }
@@ -188,6 +212,9 @@ static std::string show_cv(const CV &v)
 {
   if (v.cls < 0)
     return "<none>";
+  if (v.dead)
+    return "string:<a view of storage that was already dead (ASan-poisoned) at Export time>" +
+           std::string(v.bytes.size() > 15 ? "(" + v.bytes.substr(15) + ")" : "");
   std::string s = v.cls == A_SV ? "string" : kAltName[v.cls];
   if (v.cls == A_SV)
     return s + ":\"" + vf::show(v.bytes, 48) + "\"(" + std::to_string(v.bytes.size()) + ")";
@@ -563,6 +590,7 @@ struct Supplied
   int alt = -1;
   common::AttributeValue av;  // refers to arena storage
   CV want;
+  const char *direct = nullptr;  // != null: element of a DIRECTLY passed owning container of this type
   bool has_inner = false;
   CV inner_scribbled;  // string arrays: elements' characters scribbled, array of views intact
   bool has_after = false;
@@ -1008,8 +1036,9 @@ static void note(EmitCtx &c, uint64_t v)
 
 struct KBase
 {
-  static constexpr bool is_attr   = false;
+  static constexpr bool is_attr   = false;  // an attribute argument that can carry the id attribute of the threaded run
   static constexpr bool is_noname = false;
+  static constexpr bool is_direct = false;  // an owning container handed over directly (KDirBase)
 };
 
 struct KSev : KBase
@@ -1391,6 +1420,166 @@ struct KAttrView : KAttrMapBase  // KeyValueIterableView<map> rvalue (a class de
   common::KeyValueIterableView<KvMap> arg() { return common::KeyValueIterableView<KvMap>(*mp); }
 };
 
+// ---- attribute containers handed over DIRECTLY (no MakeAttributes, no KeyValueIterableView, no
+// AttributeValue elements) whose elements OWN their storage: std::string keys with std::string or
+// arithmetic mapped values.  The API walks the caller's container itself and hands the record views
+// of the elements, so what the container held when the call was made is what every exporter must
+// see (simple processors: exactly; batch processors: the record's non-owning views then refer to
+// the caller's container, which is the known value-owned finding, classified as before).
+template <class V>
+struct DirVal;
+template <>
+struct DirVal<std::string>
+{
+  static constexpr int alt = A_SV;
+  static std::string gen(Rng &r) { return gen_string(r, true); }
+  static common::AttributeValue view(const std::string &s) { return nostd::string_view(s.data(), s.size()); }
+  static void scribble(std::string &s)
+  {
+    if (!s.empty())
+      scrib_bytes(&s[0], s.size());  // in place: the characters stay where they are
+  }
+};
+template <>
+struct DirVal<int>
+{
+  static constexpr int alt = A_I32;
+  static int gen(Rng &r) { return pick_i32(r); }
+  static common::AttributeValue view(const int &v) { return static_cast<int32_t>(v); }
+  static void scribble(int &v) { v = flip<int>(v); }
+};
+template <>
+struct DirVal<int64_t>
+{
+  static constexpr int alt = A_I64;
+  static int64_t gen(Rng &r) { return pick_i64(r); }
+  static common::AttributeValue view(const int64_t &v) { return v; }
+  static void scribble(int64_t &v) { v = flip<int64_t>(v); }
+};
+template <>
+struct DirVal<double>
+{
+  static constexpr int alt = A_DBL;
+  static double gen(Rng &r) { return pick_dbl(r); }
+  static common::AttributeValue view(const double &v) { return v; }
+  static void scribble(double &v) { v = flip<double>(v); }
+};
+
+static inline void dir_scrib_key(const std::string &) {}  // keys of associative containers are const
+static inline void dir_scrib_key(std::string &k) { DirVal<std::string>::scribble(k); }
+
+template <class C>
+struct DirCont;
+template <class V>
+struct DirCont<std::map<std::string, V>>
+{
+  typedef V mapped;
+  static void put(std::map<std::string, V> &c, const std::string &k, V v) { c[k] = std::move(v); }
+};
+template <class V>
+struct DirCont<std::unordered_map<std::string, V>>
+{
+  typedef V mapped;
+  static void put(std::unordered_map<std::string, V> &c, const std::string &k, V v) { c[k] = std::move(v); }
+};
+template <class V>
+struct DirCont<std::vector<std::pair<std::string, V>>>
+{
+  typedef V mapped;
+  // duplicates stay in the sequence: the API sets them in order, so the last one wins
+  static void put(std::vector<std::pair<std::string, V>> &c, const std::string &k, V v)
+  {
+    c.emplace_back(k, std::move(v));
+  }
+};
+
+template <class C>
+struct KDirBase : KBase
+{
+  static constexpr bool is_direct = true;
+  typedef typename DirCont<C>::mapped V;
+  struct Entry
+  {
+    std::string key;
+    Supplied val;
+  };
+  C *c = nullptr;
+  std::vector<Entry> entries;  // in the container's own iteration order
+  void build(EmitCtx &ctx, const char *label, const char *passed_as)
+  {
+    auto &R     = vf::report();
+    size_t n    = static_cast<size_t>(ctx.r.chance(1, 8) ? 0 : ctx.r.range(1, 6));
+    auto holder = std::make_shared<std::unique_ptr<C>>(new C());
+    note(ctx, 800 + vf::fnv1a(label));
+    for (size_t i = 0; i < n; ++i)
+    {
+      std::string k = gen_key(ctx.r, ctx.keypool);
+      note(ctx, 810 + vf::fnv1a(k));
+      DirCont<C>::put(**holder, k, DirVal<V>::gen(ctx.r));
+    }
+    c = holder->get();
+    // the container is complete: nothing moves any more, so views of its elements are stable
+    for (auto &e : *c)
+    {
+      Supplied s;
+      s.alt    = DirVal<V>::alt;
+      s.av     = DirVal<V>::view(e.second);
+      s.want   = capture(s.av);
+      s.direct = label;
+      entries.push_back(Entry{e.first, s});
+    }
+    // the container IS the storage of its values (payload): scribbled in place / destroyed after the call
+    ctx.arena.add<FnKill>(
+        true,
+        [holder] {
+          if (*holder)
+            for (auto &e : **holder)
+            {
+              dir_scrib_key(e.first);
+              DirVal<V>::scribble(e.second);
+            }
+        },
+        [holder] { holder->reset(); });
+#ifdef VF_HAVE_ASAN
+    if (!ctx.mt_id)
+      g_probe_dead_views = true;
+#endif
+    R.count(std::string("direct_calls_") + label);
+    R.count(std::string("direct_calls_path_") + ctx.m.path);
+    R.count(std::string("direct_passed_as_") + passed_as);
+    if (entries.size() > 1)
+      R.count("direct_containers_with_several_elements");
+  }
+  void model(Model &m)
+  {
+    for (auto &e : entries)
+      m.set_attr(e.key, e.val);
+  }
+};
+
+typedef std::map<std::string, std::string> DMapStr;
+typedef std::unordered_map<std::string, std::string> DUMapStr;
+typedef std::vector<std::pair<std::string, std::string>> DVecStr;
+typedef std::map<std::string, int> DMapInt;
+typedef std::unordered_map<std::string, int64_t> DUMapI64;
+typedef std::vector<std::pair<std::string, double>> DVecDbl;
+
+#define VF_DIRECT(NAME, CONT, LABEL, PASSED, ARGTYPE, ARGEXPR)           \
+  struct NAME : KDirBase<CONT>                                           \
+  {                                                                      \
+    explicit NAME(EmitCtx &ctx) { build(ctx, LABEL, PASSED); }           \
+    ARGTYPE arg() { return ARGEXPR; }                                    \
+  }
+VF_DIRECT(KDirMapStr, DMapStr, "map<string,string>", "const_lvalue", const DMapStr &, *c);
+VF_DIRECT(KDirUMapStr, DUMapStr, "unordered_map<string,string>", "const_lvalue", const DUMapStr &, *c);
+VF_DIRECT(KDirVecStr, DVecStr, "vector<pair<string,string>>", "const_lvalue", const DVecStr &, *c);
+VF_DIRECT(KDirMapInt, DMapInt, "map<string,int>", "const_lvalue", const DMapInt &, *c);
+VF_DIRECT(KDirUMapI64, DUMapI64, "unordered_map<string,int64>", "const_lvalue", const DUMapI64 &, *c);
+VF_DIRECT(KDirVecDbl, DVecDbl, "vector<pair<string,double>>", "const_lvalue", const DVecDbl &, *c);
+VF_DIRECT(KDirMapStrLv, DMapStr, "map<string,string>", "lvalue", DMapStr &, *c);
+VF_DIRECT(KDirUMapStrRv, DUMapStr, "unordered_map<string,string>", "rvalue", DUMapStr &&, std::move(*c));
+VF_DIRECT(KDirVecStrRv, DVecStr, "vector<pair<string,string>>", "rvalue", DVecStr &&, std::move(*c));
+
 // ---- how the arguments are handed over
 struct CallBase
 {
@@ -1467,14 +1656,18 @@ struct ShapeT
 template <class... K>
 struct Any
 {
-  static constexpr bool attr   = false;
-  static constexpr bool noname = false;
+  static constexpr bool attr      = false;
+  static constexpr bool noname    = false;
+  static constexpr int n_direct   = 0;
+  static constexpr int n_attrargs = 0;  // attribute arguments of every kind
 };
 template <class K0, class... K>
 struct Any<K0, K...>
 {
-  static constexpr bool attr   = K0::is_attr || Any<K...>::attr;
-  static constexpr bool noname = K0::is_noname || Any<K...>::noname;
+  static constexpr bool attr      = K0::is_attr || Any<K...>::attr;
+  static constexpr bool noname    = K0::is_noname || Any<K...>::noname;
+  static constexpr int n_direct   = (K0::is_direct ? 1 : 0) + Any<K...>::n_direct;
+  static constexpr int n_attrargs = ((K0::is_direct || K0::is_attr) ? 1 : 0) + Any<K...>::n_attrargs;
 };
 
 struct ShapeEntry
@@ -1482,11 +1675,13 @@ struct ShapeEntry
   const char *name;
   void (*run)(EmitCtx &, CallCtx &);
   bool needs_rec, wrapper, has_attr, noname;
+  int n_direct, n_attrargs;
 };
 #define SH(CALL, ...)                                                                                  \
   {                                                                                                    \
     #CALL "(" #__VA_ARGS__ ")", &ShapeT<CALL, ##__VA_ARGS__>::run, CALL::needs_rec, CALL::wrapper,     \
-        Any<__VA_ARGS__>::attr, Any<__VA_ARGS__>::noname                                               \
+        Any<__VA_ARGS__>::attr, Any<__VA_ARGS__>::noname, Any<__VA_ARGS__>::n_direct,                  \
+        Any<__VA_ARGS__>::n_attrargs                                                                   \
   }
 
 static const ShapeEntry kShapes[] = {
@@ -1520,7 +1715,25 @@ static const ShapeEntry kShapes[] = {
     // an existing record plus arguments
     SH(CEmitRec), SH(CEmitRec, KSev, KBodyAv), SH(CEmitRec, KAttrSpan), SH(CEmitRec, KCtx),
     SH(CEmitRec, KBodySv, KAttrKvi, KEvt), SH(CEmitRec, KTs, KTid, KAttrMap, KBodyAv, KSev),
-    SH(CEmitRec, KSid, KFlg), SH(CEmitRec, KEvt0)};
+    SH(CEmitRec, KSid, KFlg), SH(CEmitRec, KEvt0),
+    // owning containers handed over directly: alone (const lvalue / lvalue / rvalue) ...
+    SH(CEmit, KDirMapStr), SH(CEmit, KDirUMapStr), SH(CEmit, KDirVecStr), SH(CEmit, KDirMapInt),
+    SH(CEmit, KDirUMapI64), SH(CEmit, KDirVecDbl), SH(CEmit, KDirMapStrLv), SH(CEmit, KDirUMapStrRv),
+    SH(CEmit, KDirVecStrRv),
+    // ... as the only attribute argument next to other fields ...
+    SH(CEmit, KSev, KBodySv, KDirMapStr), SH(CEmit, KDirUMapStr, KBodyAv, KSev),
+    SH(CEmit, KTs, KDirVecStr, KBodyCs), SH(CEmit, KEvt, KSev, KDirUMapI64, KBodyAv, KCtx, KTs),
+    // ... with other attribute arguments before / after (last write wins per key across arguments) ...
+    SH(CEmit, KSev, KDirVecStr, KAttrKvi), SH(CEmit, KAttrSpan, KDirMapStr, KBodySv),
+    SH(CEmit, KDirVecStr, KDirMapStr), SH(CEmit, KDirMapInt, KDirUMapStr, KAttrMap),
+    SH(CEmit, KAttrVec, KDirVecDbl, KSev), SH(CEmit, KAttrKvi, KDirUMapStrRv),
+    // ... through the severity wrappers ...
+    SH(CInfo, KBodySv, KDirMapStr), SH(CWarn, KBodySv, KDirUMapStr), SH(CError, KDirVecStr, KBodyAv),
+    SH(CDebug, KBodySv, KDirMapInt), SH(CTrace, KDirVecStrRv), SH(CFatal, KEvt, KBodySv, KDirUMapStr, KAttrKvi),
+    SH(CInfo, KDirMapStrLv, KDirVecDbl), SH(CWarn, KDirUMapI64, KBodySv),
+    // ... and on an existing record
+    SH(CEmitRec, KDirMapStr), SH(CEmitRec, KSev, KDirVecStr, KBodyAv), SH(CEmitRec, KDirUMapStr, KAttrSpan),
+    SH(CEmitRec, KDirMapInt, KDirVecStrRv), SH(CEmitRec, KDirUMapI64, KDirVecDbl)};
 static const size_t kNumShapes = sizeof(kShapes) / sizeof(kShapes[0]);
 
 // ==========================================================================================
@@ -1846,11 +2059,23 @@ static int check_value(const char *field, const Supplied &want, const CV *got, c
   auto &R         = vf::report();
   std::string alt = kAltName[want.alt];
   R.count(std::string(field) + "_" + alt + "_" + sink.k3());
+  if (want.direct)
+  {
+    R.count(std::string("attr_direct_") + want.direct + "_" + sink.k3());
+    // the verdict that matters most for these: an owning, non-empty string element seen by an
+    // exporter that runs inside the emitting call (nothing was scribbled yet: must be exact)
+    if (want.alt == A_SV && !want.want.bytes.empty() && !sink.deferred)
+      R.count("direct_owning_string_values_at_synchronous_exporter");
+  }
   if (got && *got == want.want)
     return 0;
   std::string where = sink.kind + ":" + field + ":" + alt;
-  std::string d     = m.desc + " | " + field + (key.empty() ? "" : " key " + vf::show(key, 40)) + " at " + sink.kind +
-                  " exporter: got " + (got ? show_cv(*got) : "<absent>") + " want " + show_cv(want.want);
+  // a wrong value of an element of a directly passed container gets its own class per container type
+  std::string where_value = want.direct ? sink.kind + ":container-direct:" + want.direct : where;
+  std::string d     = m.desc + " | " + field + (key.empty() ? "" : " key " + vf::show(key, 40)) +
+                  (want.direct ? std::string(" (element of a directly passed ") + want.direct + ")" : std::string()) +
+                  " at " + sink.kind + " exporter: got " + (got ? show_cv(*got) : "<absent>") + " want " +
+                  show_cv(want.want);
   if (got && killed_by_scribble && alt_has_pointer(want.alt) &&
       ((want.has_after && *got == want.after_scribble) || (want.has_inner && *got == want.inner_scribbled)))
   {
@@ -1880,7 +2105,7 @@ static int check_value(const char *field, const Supplied &want, const CV *got, c
     R.violation(std::string(field) + "-missing", sink.kind + ":" + m.path, d);
     return 1;
   }
-  R.violation(std::string(field) + "-value", where, d);
+  R.violation(std::string(field) + "-value", where_value, d);
   return 1;
 }
 
@@ -2059,6 +2284,15 @@ static const ShapeEntry &pick_shape(Rng &r, bool needs_rec, bool must_have_attr,
   }
 }
 
+static void count_direct(const ShapeEntry &s)
+{
+  if (!s.n_direct)
+    return;
+  auto &R = vf::report();
+  R.count("direct_shape_calls");
+  R.count(s.n_attrargs == 1 ? "direct_sole_attribute_argument" : "direct_combined_with_other_attribute_arguments");
+}
+
 // Generates the arguments from `er`, performs the call, leaves the model in `m`.
 static void do_call(CaseEnv &env, const ThreadCtx &tc, Rng &er, Path path, size_t logger, Pending *pending,
                     Arena &arena, Model &m, uint64_t mt_id, Hooks &hooks, uint64_t &hash)
@@ -2088,6 +2322,7 @@ static void do_call(CaseEnv &env, const ThreadCtx &tc, Rng &er, Path path, size_
     hash    = vf::mix(hash, static_cast<uint64_t>(&s - kShapes));
     s.run(c, cc);
     vf::report().count("shape_calls");
+    count_direct(s);
     return;
   }
   m      = std::move(pending->m);
@@ -2125,6 +2360,7 @@ static void do_call(CaseEnv &env, const ThreadCtx &tc, Rng &er, Path path, size_
   cc.rec = &rec;
   s.run(c, cc);
   vf::report().count("shape_calls");
+  count_direct(s);
 }
 
 // ==========================================================================================
@@ -2153,6 +2389,7 @@ struct SeqCase
     Arena arena;
     Model m;
     Hooks hooks;
+    g_probe_dead_views = false;  // switched on by a directly passed owning container among the arguments
     hooks.before = [&] { env.gate.set(false); };  // deferred exporters wait until the buffers are dead
     hooks.after  = [] {};
     Pending fresh;
@@ -2206,6 +2443,7 @@ struct SeqCase
     }
     if (!li.enabled)
       R.count("disabled_emits");
+    g_probe_dead_views = false;
     did_emit = true;
     return bad == 0;
   }
